@@ -633,6 +633,326 @@ def gate_targets():
     return [RawTarget('check_input_data', txt, ['rows'], ['kept rows', 'missing flag'])]
 
 
+def drci_targets():
+    """confidence limits of AIPTW.fit (ATE, RD, RR) and TMLE.fit (ATE, RD, RR, OR): the critical value and the two limits as
+    functions of alpha, the point estimate and the standard error.  TMLE's critical value is read with its special case."""
+    out = []
+
+    class SelfAttr(ast.NodeTransformer):
+        def visit_Attribute(self, n):
+            if isinstance(n.value, ast.Name) and n.value.id == 'self':
+                return ast.copy_location(ast.Name(id=n.attr.lstrip('_'), ctx=ast.Load()), n)
+            return self.generic_visit(n)
+
+    def zalpha_expr(fn, tr):
+        """-> IR of zalpha (either one norm.ppf assignment, or `if self.alpha == 0.05: zalpha = 1.96 else: zalpha = norm.ppf(..)`)"""
+        for st in ast.walk(fn):
+            if isinstance(st, ast.If) and ast.unparse(st.test) == 'self.alpha == 0.05' and len(st.body) == 1 and len(st.orelse) == 1 \
+                    and ast.unparse(st.body[0].targets[0]) == 'zalpha' and ast.unparse(st.orelse[0].targets[0]) == 'zalpha':
+                c = tr.expr(SelfAttr().visit(ast.parse(ast.unparse(st.body[0].value), mode='eval').body))
+                g = tr.expr(SelfAttr().visit(ast.parse(ast.unparse(st.orelse[0].value), mode='eval').body))
+                return ('ifeq005', c, g)
+        hits = [st for st in ast.walk(fn) if isinstance(st, ast.Assign) and ast.unparse(st.targets[0]) == 'zalpha']
+        if len(hits) != 1:
+            raise TranslateError('expected one assignment to zalpha, found %d' % len(hits))
+        return tr.expr(SelfAttr().visit(ast.parse(ast.unparse(hits[0].value), mode='eval').body))
+
+    def limits(fn, target, tr, extra=None):
+        hits = [st for st in ast.walk(fn) if isinstance(st, ast.Assign) and ast.unparse(st.targets[0]) == 'self.' + target]
+        if len(hits) != 1 or not isinstance(hits[0].value, (ast.List, ast.Tuple)) or len(hits[0].value.elts) != 2:
+            raise TranslateError('expected one two-element assignment to self.%s' % target)
+        return [tr.expr(SelfAttr().visit(ast.parse(ast.unparse(e), mode='eval').body)) for e in hits[0].value.elts]
+
+    def subst(e, name, by):
+        if e[0] == 'var' and e[1] == name:
+            return by
+        return tuple(subst(x, name, by) if isinstance(x, tuple) else x for x in e)
+
+    AI = os.path.join(REPO, 'zepid/causal/doublyrobust/AIPW.py')
+    TM = os.path.join(REPO, 'zepid/causal/doublyrobust/TMLE.py')
+    for path, qual, prefix, specs in (
+            (AI, 'AIPTW.fit', 'aiptw', [('ate', 'average_treatment_effect_ci', {'average_treatment_effect': 'est', 'diff_var': 'var'}),
+                                        ('rd', 'risk_difference_ci', {'risk_difference': 'est', 'diff_var': 'var'}),
+                                        ('rr', 'risk_ratio_ci', {'rr': 'est', 'risk_ratio_se': 'se'})]),
+            (TM, 'TMLE.fit', 'tmle', [('ate', 'average_treatment_effect_ci', {'average_treatment_effect': 'est', 'seIC': 'se'}),
+                                      ('rd', 'risk_difference_ci', {'risk_difference': 'est', 'seIC': 'se'}),
+                                      ('rr', 'risk_ratio_ci', {'risk_ratio': 'est', 'seIC': 'se'}),
+                                      ('or', 'odds_ratio_ci', {'odds_ratio': 'est', 'seIC': 'se'})])):
+        fn = find_function(ast.parse(open(path).read()), qual)
+        for tag, target, ren in specs:
+            second = 'var' if 'var' in ren.values() else 'se'
+            tr = FnTranslator('%s_ci_%s' % (prefix, tag), ['alpha', 'est', second])
+            tr.defined |= set(ren) | {'zalpha'}
+            z = zalpha_expr(fn, tr)
+            lo, hi = limits(fn, target, tr)
+            for old, newn in ren.items():
+                lo, hi = subst(lo, old, ('var', newn)), subst(hi, old, ('var', newn))
+            special = z[0] == 'ifeq005'
+            if special:
+                zc, zg = z[1], z[2]
+                lo_s, hi_s = subst(lo, 'zalpha', zc), subst(hi, 'zalpha', zc)
+                lo, hi = subst(lo, 'zalpha', zg), subst(hi, 'zalpha', zg)
+            else:
+                lo, hi = subst(lo, 'zalpha', z), subst(hi, 'zalpha', z)
+            params = '(zq : R -> R) (v_alpha v_est v_%s : R)' % second
+            txt = 'Definition %s_ci_%s_R %s : R * R :=\n  (%s, %s).' % (prefix, tag, params, emit(lo, 'R'), emit(hi, 'R'))
+            if special:
+                txt += ('\n(* the limits reported when alpha == 0.05 (a literal critical value replaces the quantile) *)\n'
+                        'Definition %s_ci_%s_at005_R (v_est v_%s : R) : R * R :=\n  (%s, %s).' % (prefix, tag, second, emit(lo_s, 'R'), emit(hi_s, 'R')))
+            out.append(RawTargetR('%s_ci_%s' % (prefix, tag), txt))
+    return out
+
+
+def gener_targets():
+    """zepid.causal.generalize.estimators: the sampling weight of IPSW.sampling_model (generalize / transport x stabilized /
+    unstabilized x truncated / not) and AIPSW.sampling_model, the total weight and the two arm risks of IPSW.fit, the per-row
+    terms and aggregates of AIPSW.fit, the four averaging branches of GTransportFormula.fit and the row sets they average over."""
+    GE = os.path.join(REPO, 'zepid/causal/generalize/estimators.py')
+    tree = ast.parse(open(GE).read())
+    out = []
+
+    def q(node, names, conds=None):
+        """scalar arithmetic -> Coq text over Q; names: source text -> Coq term"""
+        u = ast.unparse(node)
+        if u in names:
+            return names[u]
+        if isinstance(node, ast.Constant) and isinstance(node.value, int) and not isinstance(node.value, bool):
+            return '(%d # 1)' % node.value
+        if isinstance(node, ast.BinOp) and type(node.op) in (ast.Add, ast.Sub, ast.Mult, ast.Div):
+            op = {ast.Add: '+', ast.Sub: '-', ast.Mult: '*', ast.Div: '/'}[type(node.op)]
+            return '(%s %s %s)' % (q(node.left, names, conds), op, q(node.right, names, conds))
+        if isinstance(node, ast.Call) and ast.unparse(node.func) == 'probability_bounds' and len(node.args) == 1 \
+                and [k.arg for k in node.keywords] == ['bounds'] and ast.unparse(node.keywords[0].value) == 'bound':
+            return '(pb %s)' % q(node.args[0], names, conds)
+        if isinstance(node, ast.Call) and ast.unparse(node.func) == 'np.where' and len(node.args) == 3 and not node.keywords:
+            c = ast.unparse(node.args[0])
+            if conds is None or c not in conds:
+                raise TranslateError('np.where condition `%s`' % c)
+            return '(if %s then %s else %s)' % (conds[c], q(node.args[1], names, conds), q(node.args[2], names, conds))
+        raise TranslateError('expression `%s` in generalize.estimators' % u[:70])
+
+    class Sub(ast.NodeTransformer):
+        def __init__(self, env):
+            self.env = env
+
+        def generic_visit(self, n):
+            u = ast.unparse(n) if isinstance(n, ast.expr) else None
+            if u is not None and u in self.env:
+                return self.env[u]
+            return ast.NodeTransformer.generic_visit(self, n)
+
+    def clone(e):
+        return ast.parse(ast.unparse(e), mode='eval').body
+
+    def sym(stmts, tests, env, skip):
+        """straight-line symbolic execution: env maps the source text of an assignable to the expression it holds"""
+        for st in stmts:
+            if isinstance(st, ast.Expr) and isinstance(st.value, ast.Constant) and isinstance(st.value.value, str):
+                continue
+            if isinstance(st, ast.If):
+                t = ast.unparse(st.test)
+                if t in tests:
+                    sym(st.body if tests[t] else st.orelse, tests, env, skip)
+                    continue
+                if all(isinstance(b, ast.Raise) for b in st.body) and not st.orelse:
+                    continue                      # argument validation
+                raise TranslateError('undecidable test `%s` in generalize.estimators' % t)
+            if isinstance(st, ast.Assign) and len(st.targets) == 1:
+                tgt = ast.unparse(st.targets[0])
+                if tgt in skip:
+                    continue
+                if tgt in ('dmodel', 'nmodel'):
+                    if not (isinstance(st.value, ast.Call) and ast.unparse(st.value.func) == 'propensity_score'):
+                        raise TranslateError('%s is `%s`' % (tgt, ast.unparse(st.value)[:60]))
+                    continue                      # nuisance fit: its predictions are the inputs n, d
+                env[tgt] = Sub(env).visit(clone(st.value))
+                continue
+            raise TranslateError('statement `%s` in generalize.estimators' % ast.unparse(st)[:60])
+        return env
+
+    # ---- sampling weights
+    for cls, frame, has_bound in (('IPSW', 'self.sample', True), ('AIPSW', 'self.df', False)):
+        fn = find_function(tree, cls + '.sampling_model')
+        if ('bound' in [a.arg for a in fn.args.args]) != has_bound:
+            raise TranslateError('%s.sampling_model: unexpected `bound` parameter status' % cls)
+        for gn in (True, False):
+            for stab in (True, False):
+                for bnd in ((False, True) if has_bound else (False,)):
+                    env = sym(fn.body, {'self.generalize': gn, 'stabilized': stab, 'not stabilized': not stab, 'bound': bnd},
+                              {}, {'self._denominator_model'})
+                    if ast.unparse(env.get('self.ipsw', ast.Name(id='?'))) == '?':
+                        raise TranslateError('%s.sampling_model does not set self.ipsw' % cls)
+                    names = {'dmodel.predict(%s)' % frame: 'v_d', 'nmodel.predict(%s)' % frame: 'v_n'}
+                    txt = q(env['self.ipsw'], names, {'self.sample': 'v_s'} if cls == 'AIPSW' else None)
+                    name = '%s_samp_%s_%s%s' % (cls.lower(), 'gen' if gn else 'trn', 'stab' if stab else 'unstab', '_b' if bnd else '')
+                    params = ('(pb : Q -> Q) ' if bnd else '') + ('(v_s : bool) ' if cls == 'AIPSW' else '') + '(v_n v_d : Q)'
+                    out.append(RawTarget(name, 'Definition %s_Q %s : Q :=\n  %s.' % (name, params, txt), ['n', 'd'], ['weight']))
+
+    # ---- which rows are the study sample / the rows the treatment weights are computed on
+    keeps = {'df.loc[df[selection] == 1].copy()': 'v_s', 'df.loc[df[selection] == 0].copy()': 'negb v_s', 'df.copy()': 'true',
+             'df[selection] == 1': 'v_s', 'df[selection] == 0': 'negb v_s'}
+    for cls in ('IPSW', 'AIPSW'):
+        init = find_function(tree, cls + '.__init__')
+        hits = [st for st in init.body if isinstance(st, ast.Assign) and ast.unparse(st.targets[0]) == 'self.sample']
+        if len(hits) != 1 or ast.unparse(hits[0].value) not in keeps:
+            raise TranslateError('%s.__init__: self.sample' % cls)
+        out.append(RawTarget('%s_sample_keeps' % cls.lower(), '(* self.sample of %s: the rows with selection == 1 *)\n'
+                             'Definition %s_sample_keeps_Q (v_s : bool) : bool :=\n  %s.' % (cls, cls.lower(), keeps[ast.unparse(hits[0].value)]),
+                             ['s'], ['kept']))
+        tm = find_function(tree, cls + '.treatment_model')
+        calls = [n for n in ast.walk(tm) if isinstance(n, ast.Call) and ast.unparse(n.func) == 'iptw_calculator']
+        want_df = 'self.sample' if cls == 'IPSW' else 'self.df[self.sample]'
+        if len(calls) != 1:
+            raise TranslateError('%s.treatment_model: iptw_calculator calls' % cls)
+        kw = {k.arg: ast.unparse(k.value) for k in calls[0].keywords}
+        if calls[0].args or kw.get('df') != want_df or kw.get('standardize') != "'population'" or kw.get('treatment') != 'self.exposure' \
+                or kw.get('stabilized') != 'stabilized' or kw.get('bound') != 'bound':
+            raise TranslateError('%s.treatment_model: iptw_calculator arguments %s' % (cls, kw))
+
+    # ---- total weight in fit (IPSW: self.sample, AIPSW: self.df)
+    for cls, frame in (('IPSW', 'self.sample'), ('AIPSW', 'self.df')):
+        fn = find_function(tree, cls + '.fit')
+        tops = [st for st in fn.body if isinstance(st, ast.If) and ast.unparse(st.test) == 'self.weight is not None']
+        if len(tops) != 1:
+            raise TranslateError('expected one `if self.weight is not None:` in %s.fit' % cls)
+        for usr in (False, True):
+            for rx in (False, True):
+                env = sym([tops[0]], {'self.weight is not None': usr, 'self.iptw is None': not rx}, {}, set())
+                key = "%s['__ipw__']" % frame
+                if key not in env:
+                    raise TranslateError('%s.fit: no total weight for weights=%s, treatment_model=%s' % (cls, usr, rx))
+                txt = q(env[key], {'self.ipsw': 'v_ipsw', 'self.iptw': 'v_iptw', '%s[self.weight]' % frame: 'v_w'})
+                name = '%s_fit_ipw_%s_%s' % (cls.lower(), 'iptw' if rx else 'noiptw', 'w' if usr else 'now')
+                out.append(RawTarget(name, 'Definition %s_Q (v_ipsw v_iptw v_w : Q) : Q :=\n  %s.' % (name, txt),
+                                     ['ipsw', 'iptw', 'w'], ['weight']))
+
+    # ---- IPSW.fit: arm risks
+    fn = find_function(tree, 'IPSW.fit')
+    rest = [st for st in fn.body if not (isinstance(st, ast.If)) and not (isinstance(st, ast.Expr))]
+    env = sym(rest, {}, {}, set())
+    for tgt, arm in (('r1', '1'), ('r0', '0')):
+        v = env.get(tgt)
+        want = "np.average(self.sample[self.sample[self.exposure] == %s].copy()[self.outcome], " \
+               "weights=self.sample[self.sample[self.exposure] == %s].copy()['__ipw__'])" % (arm, arm)
+        if v is None or ast.unparse(v) != want:
+            raise TranslateError('IPSW.fit: %s is `%s`' % (tgt, ast.unparse(v) if v is not None else None))
+        sel = 'filter (fun r => %s) rows' % ('sc_a r' if arm == '1' else 'negb (sc_a r)')
+        out.append(RawTarget('ipsw_fit_' + tgt, '(* np.average(y, weights=w) over the rows of self.sample with exposure == %s *)\n'
+                             'Definition ipsw_fit_%s_Q (rows : list scol) : Q :=\n  let sel := %s in\n'
+                             '  Qsum (fun r => sc_ipw r * sc_y r) sel / Qsum (fun r => sc_ipw r) sel.' % (arm, tgt, sel),
+                             ['rows'], ['risk']))
+    for tgt, e in (('self.risk_difference', 'r1 - r0'), ('self.risk_ratio', 'r1 / r0')):
+        for cls in ('IPSW', 'GTransportFormula', 'AIPSW'):
+            f2 = find_function(tree, cls + '.fit')
+            hits = [st for st in f2.body if isinstance(st, ast.Assign) and ast.unparse(st.targets[0]) == tgt]
+            if len(hits) != 1 or ast.unparse(hits[0].value) != e:
+                raise TranslateError('%s.fit: %s is not %s' % (cls, tgt, e))
+
+    # ---- AIPSW.fit: per-row term and aggregate of each arm, generalize / transport
+    fn = find_function(tree, 'AIPSW.fit')
+    tops = [st for st in fn.body if isinstance(st, ast.If) and ast.unparse(st.test) == 'self.generalize']
+    if len(tops) != 1:
+        raise TranslateError('expected one `if self.generalize:` in AIPSW.fit')
+    names = {"self.df['__ipw__']": 'ac_ipw r', 'self.df[self.outcome]': 'ac_y r', 'self._YA1': 'ac_q1 r', 'self._YA0': 'ac_q0 r',
+             'self.df[self.selection]': 'ac_S r'}
+    conds = {'self.sample & (self.df[self.exposure] == 1)': 'andb (ac_s r) (ac_a r)',
+             'self.sample & (self.df[self.exposure] == 0)': 'andb (ac_s r) (negb (ac_a r))'}
+    for gn in (True, False):
+        env = sym([tops[0]], {'self.generalize': gn}, {}, set())
+        for tgt in ('r1', 'r0'):
+            v = env.get(tgt)
+            if v is None:
+                raise TranslateError('AIPSW.fit: no %s' % tgt)
+            if isinstance(v, ast.Call) and ast.unparse(v.func) == 'np.mean' and len(v.args) == 1 and not v.keywords:
+                agg = 'Qsum (fun r => %s) rows / Qlen rows' % q(v.args[0], names, conds)
+            elif (isinstance(v, ast.BinOp) and isinstance(v.op, ast.Div)
+                  and all(isinstance(x, ast.Call) and ast.unparse(x.func) == 'np.sum' and len(x.args) == 1 and not x.keywords
+                          for x in (v.left, v.right))):
+                agg = 'Qsum (fun r => %s) rows / Qsum (fun r => %s) rows' % (q(v.left.args[0], names, conds), q(v.right.args[0], names, conds))
+            else:
+                raise TranslateError('AIPSW.fit: %s is `%s`' % (tgt, ast.unparse(v)[:80]))
+            name = 'aipsw_fit_%s_%s' % ('gen' if gn else 'trn', tgt)
+            out.append(RawTarget(name, 'Definition %s_Q (rows : list acol) : Q :=\n  %s.' % (name, agg), ['rows'], ['risk']))
+
+    # ---- GTransportFormula.fit: which frame, which aggregate
+    fn = find_function(tree, 'GTransportFormula.fit')
+    tops = [st for st in fn.body if isinstance(st, ast.If) and ast.unparse(st.test) == 'self.generalize']
+    if len(tops) != 1:
+        raise TranslateError('expected one `if self.generalize:` in GTransportFormula.fit')
+    init = find_function(tree, 'GTransportFormula.__init__')
+    ienv = sym([st for st in init.body if isinstance(st, ast.Assign) and ast.unparse(st.targets[0]) in ('self.df', 'self.sample', 'self.target')],
+               {}, {}, set())
+    frames = {'df.copy()': 'rows', 'df.loc[df[selection] == 0].copy()': 'filter (fun r => negb (tc_s r)) rows',
+              'df.loc[df[selection] == 1].copy()': 'filter (fun r => tc_s r) rows'}
+    for gn in (True, False):
+        for usr in (False, True):
+            body = tops[0].body if gn else tops[0].orelse
+            # frame-level statements: dfa = F.copy(); dfa[self.exposure] = k; ya = predict(dfa)
+            fr, lvl, pred = {}, {}, {}
+            res = {}
+            def walk(stmts):
+                for st in stmts:
+                    if isinstance(st, ast.If):
+                        t = ast.unparse(st.test)
+                        if t != 'self.weight is not None':
+                            raise TranslateError('test `%s` in GTransportFormula.fit' % t)
+                        walk(st.body if usr else st.orelse)
+                        continue
+                    if not (isinstance(st, ast.Assign) and len(st.targets) == 1):
+                        raise TranslateError('statement `%s` in GTransportFormula.fit' % ast.unparse(st)[:60])
+                    tgt, val = ast.unparse(st.targets[0]), st.value
+                    u = ast.unparse(val)
+                    if isinstance(st.targets[0], ast.Name) and u in ('self.df.copy()', 'self.target.copy()', 'self.sample.copy()'):
+                        fr[tgt] = u[:-len('.copy()')]
+                    elif isinstance(st.targets[0], ast.Subscript) and ast.unparse(st.targets[0].value) in fr \
+                            and ast.unparse(st.targets[0].slice) == 'self.exposure' and u in ('1', '0'):
+                        lvl[ast.unparse(st.targets[0].value)] = u
+                    elif isinstance(val, ast.Call) and ast.unparse(val.func) == 'self._outcome_model.predict' and len(val.args) == 1 \
+                            and ast.unparse(val.args[0]) in lvl:
+                        pred[tgt] = ast.unparse(val.args[0])
+                    elif tgt in ('r1', 'r0'):
+                        res[tgt] = val
+                    else:
+                        raise TranslateError('statement `%s` in GTransportFormula.fit' % ast.unparse(st)[:60])
+            walk(body)
+            for tgt, want in (('r1', '1'), ('r0', '0')):
+                v = res.get(tgt)
+                if v is None:
+                    raise TranslateError('GTransportFormula.fit: no %s' % tgt)
+                if not (isinstance(v, ast.Call) and len(v.args) == 1 and ast.unparse(v.args[0]) in pred):
+                    raise TranslateError('GTransportFormula.fit: %s is `%s`' % (tgt, ast.unparse(v)))
+                d = pred[ast.unparse(v.args[0])]
+                if lvl[d] != want:
+                    raise TranslateError('GTransportFormula.fit: %s averages predictions under exposure %s' % (tgt, lvl[d]))
+                col = 'tc_q1 r' if want == '1' else 'tc_q0 r'
+                frame = ast.unparse(ienv[fr[d]]) if fr[d] in ienv else None
+                if frame not in frames:
+                    raise TranslateError('GTransportFormula: frame %s is `%s`' % (fr[d], frame))
+                fu = ast.unparse(v.func)
+                if fu == 'np.mean' and not v.keywords:
+                    agg = 'Qsum (fun r => %s) sel / Qlen sel' % col
+                elif fu == 'np.average' and [k.arg for k in v.keywords] == ['weights'] \
+                        and ast.unparse(v.keywords[0].value) == '%s[self.weight]' % fr[d]:
+                    agg = 'Qsum (fun r => tc_w r * %s) sel / Qsum (fun r => tc_w r) sel' % col
+                else:
+                    raise TranslateError('GTransportFormula.fit: aggregate `%s`' % ast.unparse(v))
+                name = 'gt_fit_%s_%s_%s' % ('gen' if gn else 'trn', 'w' if usr else 'now', tgt)
+                out.append(RawTarget(name, '(* rows: the combined data; sel: the frame GTransportFormula averages over *)\n'
+                                     'Definition %s_Q (rows : list tcol) : Q :=\n  let sel := %s in\n  %s.' % (name, frames[frame], agg),
+                                     ['rows'], ['risk']))
+    return out
+
+
+class RawTargetR(RawTarget):
+    """ready-made Coq text over R"""
+    def __init__(self, name, r_text):
+        RawTarget.__init__(self, name, '(* %s: over R only, see the _R file *)' % name, ['alpha', 'est', 'se'], ['lcl', 'ucl'])
+        self.r_text = r_text
+
+    def coq(self):
+        return self.r_text
+
+
 GROUPS = {
     'tmle': tmle_targets,
     'calc': calc_targets,
@@ -646,6 +966,8 @@ GROUPS = {
     'gfmarg': gfmarg_targets,
     'xfvar': xfvar_targets,
     'gate': gate_targets,
+    'drci': drci_targets,
+    'gener': gener_targets,
 }
 
 
@@ -660,7 +982,7 @@ def generate(groups=None):
         try:
             ts = fn()
             r = HEADER_R + '\n' + '\n\n'.join(t.coq() for t in ts) + '\n'
-            q = HEADER_Q + ('From Zepid Require Import Base.QSum Base.QAgg.\n' if g in ('pool', 'gfmarg') else '') + ('From Zepid Require Import Base.QSum Base.QAgg Base.Rows Model.Estimators.\n' if g == 'xfvar' else '') + ('From Zepid Require Import Model.Gate.\n' if g == 'gate' else '') + '\n' + '\n\n'.join(t.coq_q() for t in ts) + '\n'
+            q = HEADER_Q + ('From Zepid Require Import Base.QSum Base.QAgg.\n' if g in ('pool', 'gfmarg') else '') + ('From Zepid Require Import Base.QSum Base.QAgg Base.Rows Model.Estimators.\n' if g == 'xfvar' else '') + ('From Zepid Require Import Model.Gate.\n' if g == 'gate' else '') + ('From Zepid Require Import Base.QSum Base.QAgg Model.Generalize.\n' if g == 'gener' else '') + '\n' + '\n\n'.join(t.coq_q() for t in ts) + '\n'
             side[g] = [t.sidecar() for t in ts]
             err = None
         except (TranslateError, SyntaxError, OSError) as e:
